@@ -158,6 +158,12 @@ def handle (op : String) (args res : List String) : Option String :=
       | some b => some b
       | none => if res.length < ops.length then some "truncated" else none
     pure (verdictP (if compat model res then res else model) res prop)
+  | "c13reuse", _ =>
+    -- differential op: a polygon built from a REUSED *Loop object vs one built from a fresh loop with the same vertices
+    some (match res with
+      | ["same"] => "ok"
+      | r => if r.any (·.startsWith "PANIC") then "propfail loop-object-reuse-panics " ++ " ".intercalate r
+             else "propfail loop-object-reuse-differs-from-fresh " ++ " ".intercalate r)
   | _, _ => none
 
 end Oracle.C13
